@@ -22,6 +22,11 @@ type Transaction struct {
 	DbName      string
 	Database    database.Database
 	logger      *logr.Logger
+
+	// deletedRowTables records, for each uuid in DeletedRows, the tables the
+	// transaction deleted a row with that uuid from (uuids are only unique
+	// per table)
+	deletedRowTables map[string]map[string]struct{}
 }
 
 func NewTransaction(model model.DatabaseModel, dbName string, database database.Database, logger *logr.Logger) Transaction {
@@ -37,6 +42,8 @@ func NewTransaction(model model.DatabaseModel, dbName string, database database.
 		DbName:      dbName,
 		Database:    database,
 		logger:      logger,
+
+		deletedRowTables: make(map[string]map[string]struct{}),
 	}
 }
 
@@ -184,7 +191,7 @@ func (t *Transaction) applyReferenceUpdates(update updates.ModelUpdates) error {
 		err := update.ForEachModelUpdate(table, func(uuid string, old, new model.Model) error {
 			// track deleted rows due to reference updates
 			if old != nil && new == nil {
-				t.DeletedRows[uuid] = struct{}{}
+				t.markDeleted(table, uuid)
 			}
 			// warm the cache with updated and deleted rows due to reference
 			// updates
@@ -296,17 +303,27 @@ func (t *Transaction) checkIndexes() error {
 	return nil
 }
 
+// markDeleted records that the transaction deletes row uuid of table
+func (t *Transaction) markDeleted(table, uuid string) {
+	t.DeletedRows[uuid] = struct{}{}
+	if t.deletedRowTables[uuid] == nil {
+		t.deletedRowTables[uuid] = make(map[string]struct{})
+	}
+	t.deletedRowTables[uuid][table] = struct{}{}
+}
+
 func (t *Transaction) Insert(op *ovsdb.Operation) (ovsdb.OperationResult, *updates.ModelUpdates) {
 	if err := ovsdb.ValidateUUID(op.UUID); err != nil {
 		return ovsdb.ResultFromError(err), nil
 	}
 
 	// The uuid must be free: not used by a row this transaction created, nor
-	// by a row of the database unless this transaction deleted it. Nothing
+	// by a row of the database unless this transaction deleted it (that very
+	// row: a row of another table may carry the same uuid). Nothing
 	// else notices a clash before Commit, which would then fail half way
 	// through, after the monitors were notified.
 	inUse := t.Cache.Table(op.Table) != nil && t.Cache.Table(op.Table).HasRow(op.UUID)
-	if _, deleted := t.DeletedRows[op.UUID]; !inUse && !deleted {
+	if _, deleted := t.deletedRowTables[op.UUID][op.Table]; !inUse && !deleted {
 		existing, err := t.Database.Get(t.DbName, op.Table, op.UUID)
 		if err != nil {
 			return ovsdb.ResultFromError(err), nil
@@ -406,7 +423,7 @@ func (t *Transaction) Delete(op *ovsdb.Operation) (ovsdb.OperationResult, *updat
 		}
 
 		// track delete operation in transaction to complement cache
-		t.DeletedRows[uuid] = struct{}{}
+		t.markDeleted(op.Table, uuid)
 	}
 
 	return ovsdb.OperationResult{Count: len(rows)}, &update
